@@ -161,6 +161,11 @@ func genConfig(tp *simcore.Tape, enumerate bool) *config {
 		c.programs = append(c.programs, []opSpec{{kind: opRetention}}, []opSpec{{kind: opSelR, lo: 0, hi: c.nSegs - 1}, {kind: opSelR, lo: 0, hi: c.nSegs - 1}})
 		nActors -= 2
 	}
+	if len(c.programs) == 0 && tp.Bool(1, 8) {
+		// focused mix: the oldest segment is released, force-deleted and created again at about the same time
+		c.programs = append(c.programs, []opSpec{{kind: opSelR, lo: 0, hi: 0}}, []opSpec{{kind: opForced}, {kind: opCreate, day: 0}})
+		nActors -= 2
+	}
 	for a := 0; a < nActors; a++ {
 		n := tp.Range(1, maxOps)
 		var prog []opSpec
